@@ -75,7 +75,7 @@ REG.add(Contract(F_QA, '_parse_raw', params=[('cp', T.Obj('ConfigParser')), ('or
 # ---- the whole listing: the five sections with fixed names (those present), then every other section in file order, then [Variables]
 LISTED = ['Pair', 'Potential-Form', 'Tabulation', 'EAM-Embed', 'EAM-Density']      # order of the listing
 def is_other(s): return z3.And(*[s != _sv(n) for n in LISTED])
-other_sections = FilterSeq('other_sections', [StrL], lambda S, k: is_other(S[k]), lambda S, k: S[k], StrS)
+other_sections = FilterSeq('other_sections', [StrL], lambda S, k: is_other(S[k]), lambda S, k: S[k], StrS); other_sections.want_positions_lemma = True
 REG.classes['RawCP'].fields['default_section'] = T.Str
 VarsT = T.ODict(T.Str, T.Str)
 var_keys = z3.Function('variables_of', DU.RCP, StrL); var_val = z3.Function('variable_value', DU.RCP, StrS, StrS)
